@@ -593,7 +593,8 @@ class PlanJoinTablesQuery:
             model_params = {}
             for param, value in query_in.using.items():
                 if '.' in param:
-                    alias = param.split('.')[0]
+                    # aliases are kept in lower case (M.opt addresses the model m like M.col does in WHERE)
+                    alias = param.split('.')[0].lower()
                     if (alias,) in item.aliases:
                         new_param = '.'.join(param.split('.')[1:])
                         model_params[new_param.lower()] = value
